@@ -43,7 +43,7 @@ func C17(r *core.Report) {
 	r.Floor("C17.R7", 2)
 	c17EntryLengthInvariant(r)
 	r.Floor("C17.R8", 1)
-	r.Floor("C17.R1", 20)
+	r.Floor("C17.R1", 10)
 	r.Floor("C17.R2", 1)
 	r.Floor("C17.R3", 3)
 	r.Floor("C17.R4", 3)
